@@ -411,6 +411,10 @@ struct TState {
 }
 
 pub struct TB {
+    /// every node gets a count stamp right after its creation (a clone is made and dropped), as
+    /// if it had been in use for a while; a never-decremented count word carries stamp 0, which
+    /// is indistinguishable from a decrement in an epoch that is a multiple of 16
+    pub prestamp: bool,
     pub threads: Vec<Vec<Op>>,
     pub sched: Vec<Directive>,
     st: Vec<TState>,
@@ -424,6 +428,7 @@ fn is_null(name: &str) -> bool {
 impl TB {
     pub fn new(n: usize) -> TB {
         TB {
+            prestamp: false,
             threads: vec![Vec::new(); n],
             sched: Vec::new(),
             st: vec![TState::default(); n],
@@ -546,6 +551,10 @@ impl TB {
         }
         self.push(t, K::New, a, b, c);
         self.add_rc(t, name);
+        if self.prestamp {
+            self.clone_rc(t, name, "_ps");
+            self.drop_rc(t, "_ps");
+        }
     }
     /// New edge-less node whose destructor uses the API (`dact` as in `shadow::destructor_action`).
     pub fn new_node_dact(&mut self, t: usize, name: &str, dact: u8, rank_hint: u8) {
